@@ -41,7 +41,7 @@ DEFS = """
 ; the state of one send: sys = what SO_SNDBUF reports (>= 4096 by the property's quantifier),
 ; cur = the sender's current, possibly downsized, value
 (define-fun inv ((sys (_ BitVec 64)) (cur (_ BitVec 64)) (len (_ BitVec 64)) (pos (_ BitVec 64))) Bool
-  (and (bvuge sys (_ bv4096 64)) (bvule sys (_ bv4611686018427387904 64)) (bvuge cur (_ bv1000 64)) (bvule cur sys) (bvule pos len)))
+  (and (bvuge sys (_ bv4096 64)) (bvule sys (_ bv4611686018427387904 64)) (bvuge cur (_ bv48 64)) (bvule cur sys) (bvule pos len)))
 """
 
 V = ["sys", "cur", "len", "pos", "a", "b", "n", "x"]
@@ -51,33 +51,33 @@ DECL = "\n".join(f"(declare-const {v} (_ BitVec 64))" for v in V) + "\n(declare-
 QUERIES = [
     ("sizes_no_panic", ["C01", "C13", "C18"], "fragment_size / first_fragment_size never hit an overflow assertion for any buffer size >= 40",
      "(bvuge x (_ bv40 64))", "(and (not (fragment_size!panic x)) (not (first_fragment_size!panic x)))"),
-    ("first_fragment_shape", ["C01"], "first_fragment_size(sb) is a multiple of 8 and lies in (fragment_size(sb)-16, fragment_size(sb)-8]",
+    ("first_fragment_shape", ["C01"], "first_fragment_size(sb) leaves room for the 8-byte header inside a regular fragment, and is positive for every size the sender can reach (>= 48)",
      "(bvuge x (_ bv48 64))",
-     "(and (= (bvurem (ffs x) (_ bv8 64)) (_ bv0 64)) (bvule (ffs x) (bvsub (fs x) (_ bv8 64))) (bvugt (ffs x) (bvsub (fs x) (_ bv16 64))))"),
+     "(and (bvule (ffs x) (bvsub (fs x) (_ bv8 64))) (bvugt (ffs x) (_ bv0 64)) (bvugt (fs x) (_ bv0 64)))"),
     ("sizes_monotone", ["C01", "C13"], "both sizes are monotone in the buffer size",
      "(and (bvuge a (_ bv48 64)) (bvule a b))", "(and (bvule (fs a) (fs b)) (bvule (ffs a) (ffs b)))"),
     ("header_fits_kernel", ["C01", "C13"], "a first packet (8-byte header + first_fragment_size) and a follow-up (fragment_size) never exceed what the kernel accepts for that buffer size (size - 32)",
      "(bvuge x (_ bv48 64))", "(and (bvule (bvadd (ffs x) (_ bv8 64)) (bvsub x (_ bv32 64))) (bvule (fs x) (bvsub x (_ bv32 64))))"),
     ("downsize_no_panic", ["C13"], "downsize never panics", "true", "(not (downsize!panic a b))"),
-    ("downsize_gives_up_iff_small", ["C13"], "downsize gives up exactly for attempts of <= 2000 bytes and then leaves the size alone",
-     "true", "(and (= (downsize a b) (bvugt b (_ bv2000 64))) (=> (not (downsize a b)) (= (downsize!out a b) a)))"),
-    ("downsize_shrinks", ["C13"], "after a refused attempt of b bytes made with size a (so b <= a-32), the new size is smaller than the attempt, at most half the old one or half the attempt, and still >= 1000",
-     "(and (downsize a b) (bvuge a (_ bv1000 64)) (bvule b (bvsub a (_ bv32 64))))",
-     "(and (bvult (downsize!out a b) b) (bvult (downsize!out a b) a) (bvuge (downsize!out a b) (_ bv1000 64)) (or (= (downsize!out a b) (bvudiv a (_ bv2 64))) (= (downsize!out a b) (bvudiv b (_ bv2 64)))))"),
+    ("downsize_gives_up_cleanly", ["C13"], "when downsize gives up it leaves the size alone (the threshold itself is a policy, not a property)",
+     "true", "(=> (not (downsize a b)) (= (downsize!out a b) a))"),
+    ("downsize_shrinks", ["C13"], "after a refused attempt of b bytes made with size a (so b <= a-32), the new size is strictly smaller than the attempt and than the old size (progress), and still >= 48, the smallest size for which the fragment sizes are defined",
+     "(and (downsize a b) (bvuge a (_ bv48 64)) (bvule b (bvsub a (_ bv32 64))))",
+     "(and (bvult (downsize!out a b) b) (bvult (downsize!out a b) a) (bvuge (downsize!out a b) (_ bv48 64)))"),
     ("enter_fragmentation_direct", ["C01"], "a message longer than the single-packet limit starts with a first fragment strictly shorter than the message, within the receiver's first read",
      "(and (inv sys sys len (_ bv0 64)) (bvugt len (ffs sys)))", "(and (bvult (ffs sys) len) (bvule (ffs sys) (ffs sys)) (bvugt (ffs sys) (_ bv0 64)))"),
     ("enter_fragmentation_after_enobufs", ["C13"], "falling back to fragmentation after ENOBUFS on a single-packet attempt: the downsized first fragment is strictly shorter than the message (so the slice is in range and the receiver takes the fragmented path) and fits the receiver's first read",
      "(and (inv sys sys len (_ bv0 64)) (bvule len (ffs sys)) (downsize sys len))",
-     "(let ((c (downsize!out sys len))) (and (bvuge c (_ bv1000 64)) (bvule c sys) (bvult (ffs c) len) (bvule (ffs c) (ffs sys)) (not (first_fragment_size!panic c))))"),
+     "(let ((c (downsize!out sys len))) (and (bvuge c (_ bv48 64)) (bvule c sys) (bvult (ffs c) len) (bvule (ffs c) (ffs sys)) (not (first_fragment_size!panic c))))"),
     ("retry_first_fragment", ["C13"], "a refused first fragment is retried with a strictly smaller one that still satisfies the invariant",
      "(and (inv sys cur len (_ bv0 64)) (bvult (ffs cur) len) (downsize cur (ffs cur)))",
-     "(let ((c (downsize!out cur (ffs cur)))) (and (bvuge c (_ bv1000 64)) (bvult c cur) (bvult (ffs c) len) (bvule (ffs c) (ffs sys)) (bvugt (ffs c) (_ bv0 64))))"),
+     "(let ((c (downsize!out cur (ffs cur)))) (and (bvuge c (_ bv48 64)) (bvult c cur) (bvult (ffs c) len) (bvule (ffs c) (ffs sys))))"),
     ("followup_step", ["C01", "C13"], "inductive step of the fragment loop: from any state satisfying the invariant with data left, the next follow-up is non-empty, stays inside the message, fits the receiver's read window min(fragment_size(sys), remaining) and the kernel limit",
      "(and (inv sys cur len pos) (bvult pos len) (bvule len (_ bv4611686018427387904 64)))",
      "(let ((e (umin (bvadd pos (fs cur)) len))) (and (bvugt e pos) (bvule e len) (bvule (bvsub e pos) (umin (fs sys) (bvsub len pos))) (bvule (bvsub e pos) (bvsub sys (_ bv32 64)))))"),
     ("followup_retry", ["C13"], "a refused follow-up is retried with a smaller size that keeps the invariant",
      "(and (inv sys cur len pos) (bvult pos len) (bvule len (_ bv4611686018427387904 64)) (downsize cur (bvsub (umin (bvadd pos (fs cur)) len) pos)))",
-     "(let ((c (downsize!out cur (bvsub (umin (bvadd pos (fs cur)) len) pos)))) (and (bvuge c (_ bv1000 64)) (bvult c cur) (bvule c sys)))"),
+     "(let ((c (downsize!out cur (bvsub (umin (bvadd pos (fs cur)) len) pos)))) (and (bvuge c (_ bv48 64)) (bvult c cur) (bvule c sys)))"),
     ("cmsg_no_panic", ["C18"], "CMSG_SPACE / CMSG_LEN do not overflow for up to 2^32 descriptors",
      "(bvule n (_ bv4294967296 64))", "(let ((l (bvmul n (_ bv4 64)))) (and (not (CMSG_SPACE!panic l)) (not (CMSG_LEN!panic l))))"),
     ("cmsg_space_covers_len", ["C18"], "the control buffer the sender allocates (CMSG_SPACE) covers the control message it describes (CMSG_LEN), header included",
@@ -86,8 +86,8 @@ QUERIES = [
      "(bvule n (_ bv4294967296 64))", "(= (bvudiv (bvsub (CMSG_LEN (bvmul n (_ bv4 64))) (CMSG_ALIGN (_ bv16 64))) (_ bv4 64)) n)"),
     ("cmsg_align", ["C18"], "CMSG_ALIGN rounds up to the next multiple of 8",
      "(bvule x (_ bv9223372036854775807 64))", "(and (= (bvurem (CMSG_ALIGN x) (_ bv8 64)) (_ bv0 64)) (bvuge (CMSG_ALIGN x) x) (bvult (bvsub (CMSG_ALIGN x) x) (_ bv8 64)))"),
-    ("receive_buffer_holds_64", ["C15", "C18"], "the receiver's control buffer CMSG_SPACE(64*4) holds a control message with 64 descriptors and not one with 65",
-     "true", "(and (bvuge (CMSG_SPACE (_ bv256 64)) (CMSG_LEN (_ bv256 64))) (bvult (CMSG_SPACE (_ bv256 64)) (CMSG_LEN (_ bv260 64))))"),
+    ("receive_buffer_holds_max", ["C15", "C18"], "the receiver's control buffer CMSG_SPACE(MAX_FDS_IN_CMSG*4) holds a control message with every count of descriptors the sender lets through (n <= MAX_FDS_IN_CMSG)",
+     "(bvule n MAXFDS)", "(bvuge (CMSG_SPACE (bvmul MAXFDS (_ bv4 64))) (CMSG_LEN (bvmul n (_ bv4 64))))"),
     ("s_issock", ["C04"], "S_ISSOCK tests the file-type bits against S_IFSOCK", "true", "(= (S_ISSOCK m32) (= (bvand m32 (_ bv61440 32)) (_ bv49152 32)))"),
 ]
 
@@ -161,7 +161,11 @@ def run_queries(props=None):
     except TranslationError as e:
         res["error"] = "translation: " + str(e)
         return res
-    prefix = "(set-logic ALL)\n(set-option :produce-models true)\n" + t.smt() + "\n" + DEFS + DECL
+    maxfds = t.consts.get("MAX_FDS_IN_CMSG", (None, 0))[0]
+    if maxfds is None:
+        res["error"] = "translation: constant MAX_FDS_IN_CMSG not found in the MIR dump"
+        return res
+    prefix = "(set-logic ALL)\n(set-option :produce-models true)\n" + t.smt() + "\n" + DEFS + DECL + f"(define-fun MAXFDS () (_ BitVec 64) (_ bv{maxfds} 64))\n"
     res["smt"] = t.smt()
     res["prefix"] = prefix
     for q in QUERIES:
